@@ -12,7 +12,7 @@ import (
 
 func init() {
 	register(&Rule{
-		ID: "GUARD-ERRORS", Props: []string{"C03"}, Floor: 10,
+		ID: "GUARD-ERRORS", Props: []string{"C03", "C05"}, Floor: 10,
 		Doc: "in writeTxnState.modify/delete/addDeleteTracker the nil-transaction test returning ErrTransactionClosed is the first thing executed, the `locked` test returning ErrTableNotLockedForWriting dominates every index mutation and every revision store, and every table write method goes through them",
 		Run: ruleGuardErrors,
 	})
